@@ -12,7 +12,7 @@ ASSUME = [
     "leaf completions, scheduler hops and stop requests are serialised by the harness driver on one thread; a stop "
     "request is produced at every driver position (before connect/start, inside each leaf start, between any two "
     "completions, after the end) in the deterministic part; the multi-threaded part (coromt) races a real stop request from "
-    "another thread against the task on natural + perturbed OS schedules (no hook sites inside task.hpp yet)",
+    "another thread against the task on natural + perturbed OS schedules (hook sites 451-455 in the stop-request thunk)",
     "the reference model (vfpy/coro_model.py) encodes docs/api_reference.md and the comments of task.hpp; cleanup "
     "actions always succeed (a failing/cancelling cleanup terminates by design)",
     "the receiver may destroy the operation state and free its stop source inside its completion",
@@ -41,13 +41,18 @@ def run(tier, seed, verdict):
     it = 1500 if tier == "quick" else 60000
     for variant in ("asan20d", "tsan20d"):
         n = it if variant.startswith("asan") else it // 2
-        a = [["seed=%d" % (seed * 100 + i), "iters=%d" % n, "perturb=%d" % (i % 2)]
-             for i in range(4 if tier == "quick" else 8)]
+        # hook sites in task.hpp: 451 stop callback about to start the deferred stop request, 452 task completion about to
+        # drop its reference, 453 deferred stop request about to drop its reference (454/455 count which side finished last)
+        victims = (0, 451, 452, 453) if tier == "quick" else (0, 451, 452, 453, 0, 451, 452, 453)
+        a = [["seed=%d" % (seed * 100 + i), "iters=%d" % n, "perturb=%d" % (1 if v else i % 2), "victim=%d" % v]
+             for i, v in enumerate(victims)]
         mt_check.run_mt("C10", "coromt", variant, a, verdict, res, timeout=1800)
     st = res.stats
     missing = [k for k in ("outcome_value", "outcome_done", "cleanups_run", "frames_total") if not st.get(k)]
-    if missing:
-        raise core.HarnessFailure("coromt observed none of: %s" % missing)
+    # both orders of the thunk's join must have been seen: 454 = task finished first (waits for the stop delivery),
+    # 455 = stop delivery finished last and resumed the continuation
+    missing += ["hook %s" % h for h in ("451", "454", "455") if not res.hooks.get(h)]
+    core.require_observed(verdict, missing, "coromt")
     cov["mt_rounds"] = st.get("rounds_total", 0)
     cov["mt_outcomes"] = {k: v for k, v in st.items()}
     cov["mt_hook_hits"] = res.hooks
@@ -61,6 +66,7 @@ def run(tier, seed, verdict):
                     "context B's thread at a random point; checked per round: one outcome, value impossible when the last "
                     "step never finishes, no frame alive afterwards, cleanups registered == run, reverse order per frame, "
                     "every resumption on A's thread; ASan+UBSan and TSan builds.")
-    if cov["evaluations"] and cov["inconclusive"] > 0.05 * cov["evaluations"]:
+    if cov["evaluations"] and cov["inconclusive"] > 0.05 * cov["evaluations"] and not verdict.has_new():
+        # (when processes keep dying on a new violation the scenarios behind them are lost: the violation is the verdict)
         raise core.HarnessFailure("too many inconclusive scenarios")
     return cov, list(ASSUME), "exploration"
